@@ -38,7 +38,7 @@ lazy_static! {
 
 fn _construct_fen_regex() -> Regex {
     #[allow(clippy::unwrap_used)]
-    Regex::new(r"^([PNBRQKpnbrqk1-8]{1,8}(?:/[PNBRQKpnbrqk1-8]{1,8}){7}) ([bw]) (KQ?k?q?|Qk?q?|kq?|q|-) ([a-h][1-8]|-)(?: (\d+) (\d+))?$").unwrap()
+    Regex::new(r"^([PNBRQKpnbrqk1-8]{1,8}(?:/[PNBRQKpnbrqk1-8]{1,8}){7}) ([bw]) (KQ?k?q?|Qk?q?|kq?|q|-) ([a-h][1-8]|-)(?: ([0-9]+) ([0-9]+))?$").unwrap()
 }
 
 lazy_static! {
@@ -127,6 +127,14 @@ impl FromStr for Fen {
 
         #[allow(clippy::unwrap_used)]
         Self::validate_ranks(group_to_slice(1).map(|range| &fen[range.start..range.end]).unwrap())?;
+
+        for clock_group in [5, 6] {
+            if let Some(range) = group_to_slice(clock_group) {
+                if fen[range.start..range.end].parse::<u32>().is_err() {
+                    return Err(InvalidCapture(s.to_string()));
+                }
+            }
+        }
 
         Ok(
             #[allow(clippy::unwrap_used)]
